@@ -141,6 +141,54 @@ fn check_subject(c: &mut Case, s: &dyn Subject, thorough: bool) -> Outcome {
             }
         }
     }
+    // batch composition with extreme rows: a row far away from the training data must not change
+    // what the ordinary rows of the same batch get, nor get something else than it gets alone
+    // (labels only: they are compared exactly, so no scale enters)
+    if s.discrete() && !name.contains("multinomial") {
+        let nx = 6usize;
+        let mut mixed = zoo::row_subset(&probe, &(0..n.min(10)).collect::<Vec<_>>());
+        let base = mixed.nrows();
+        let mut ext = Array2::<f64>::zeros((nx, p));
+        for (r, mut row) in ext.outer_iter_mut().enumerate() {
+            let mag = [40.0, 1e3, 1e6][r % 3] * if r >= 3 { -1.0 } else { 1.0 };
+            for (j, v) in row.iter_mut().enumerate() {
+                *v = mag * (1.0 + 0.25 * ((r + j) % 3) as f64);
+            }
+        }
+        // interleave: ordinary, extreme, ordinary, ...
+        let mut rows: Vec<Vec<f64>> = vec![];
+        for i in 0..base.max(nx) {
+            if i < base {
+                rows.push(mixed.row(i).to_vec());
+            }
+            if i < nx {
+                rows.push(ext.row(i).to_vec());
+            }
+        }
+        mixed = Array2::from_shape_fn((rows.len(), p), |(i, j)| rows[i][j]);
+        let mut alone: Vec<Option<Vec<f64>>> = vec![];
+        for i in 0..mixed.nrows() {
+            let row = zoo::row_subset(&mixed, &[i]);
+            alone.push(s.predict(&row, Form::RefArray, Layout::C).ok().map(|p| p.rows[0].clone()));
+        }
+        for (form, layout) in [(Form::RefArray, Layout::C), (Form::RefView, Layout::F), (Form::OwnedDataset, Layout::C)] {
+            match s.predict(&mixed, form, layout) {
+                Ok(pr) => {
+                    ensure!(pr.rows.len() == mixed.nrows(), "C03/length/outputs-vs-rows", {"model": name, "batch": "mixed-extremes"});
+                    for i in 0..mixed.nrows() {
+                        if let Some(a) = &alone[i] {
+                            ensure!(&pr.rows[i] == a, "C03/rowwise/label-depends-on-batch-composition",
+                                {"model": name, "form": format!("{form:?}"), "row_in_batch": i, "row": mixed.row(i).to_vec(),
+                                 "in_mixed_batch": pr.rows[i], "alone": a});
+                        }
+                    }
+                    evals += 1;
+                }
+                Err(pmsg) => bail!("C03/predict/panic", {"model": name, "batch": "mixed-extremes", "form": format!("{form:?}"), "panic": pmsg}),
+            }
+        }
+        c.count("mixed-extremes-batches");
+    }
     c.evals = evals;
     c.count_n("bit-exact-cells", bitexact);
     c.note("model", json!(name));
